@@ -1,9 +1,197 @@
+import ScenicModel.Model.ExprSupported
+import ScenicModel.Model.Support
+import ScenicModel.Gen.ExprTables
+import ScenicModel.Gen.SupportFormulas
 import Driver.Util
-/-! line protocol for the C05 model (stub: replaced when the property's model is built) -/
+/-!
+Line protocol for the C05 models (expression forest, supports); tables are the ones regenerated from /repo.
+
+  ev <n> <val>*n <expr>     ->  <supported 0/1> | <python value> | <scenic value> | <forest shape>
+  sup <n> <ival>*n <sexpr>  ->  <lo> <hi>     (support interval computed by the model; `-` = None, `exc` = exception)
+  tables                    ->  a dump of the generated tables
+
+Token syntax (prefix, space separated):
+  val  ::= n <rat> | none | s <hex> | t <k> val*k | l <k> val*k | v <rat> <rat> <rat>
+  expr ::= C val | L <i> <N|V|O> | B <op> expr expr | U <op> expr | G expr expr | LEN expr | A <name> expr
+         | T <k> expr*k | LS <k> expr*k | VEC expr expr expr | F <fn> <k> arg*k        arg ::= P expr | S expr
+-/
 namespace Driver.C05
-open Driver
+open Driver Scenic.Expr
+
+def T : Tables := Scenic.Gen.exprTables
+
+abbrev P (α : Type) := List String → Option (α × List String)
+
+def pRat : P Rat
+  | w :: rest => (parseRat w).map (·, rest)
+  | [] => none
+
+def pNat : P Nat
+  | w :: rest => w.toNat?.map (·, rest)
+  | [] => none
+
+def hexToString (h : String) : Option String :=
+  if h == "-" then some "" else (fromHex h).map fun bs => String.ofList (bs.map Char.ofNat)
+
+def stringToHex (s : String) : String := toHex (s.toList.map Char.toNat)
+
+partial def pMany {α} (p : P α) : Nat → P (List α)
+  | 0, ts => some ([], ts)
+  | n + 1, ts => do
+    let (x, ts) ← p ts
+    let (xs, ts) ← pMany p n ts
+    pure (x :: xs, ts)
+
+partial def pVal : P Val
+  | "n" :: ts => do let (q, ts) ← pRat ts; pure (.num q, ts)
+  | "none" :: ts => some (.none, ts)
+  | "s" :: h :: ts => (hexToString h).map fun s => (.str s, ts)
+  | "t" :: ts => do let (k, ts) ← pNat ts; let (xs, ts) ← pMany pVal k ts; pure (.seq false xs, ts)
+  | "l" :: ts => do let (k, ts) ← pNat ts; let (xs, ts) ← pMany pVal k ts; pure (.seq true xs, ts)
+  | "v" :: ts => do
+    let (x, ts) ← pRat ts; let (y, ts) ← pRat ts; let (z, ts) ← pRat ts
+    pure (.vec x y z, ts)
+  | _ => none
+
+def pBinOp : String → Option BinOp
+  | "add" => some .add | "sub" => some .sub | "mul" => some .mul | "truediv" => some .truediv
+  | "floordiv" => some .floordiv | "mod" => some .mod | "pow" => some .pow | _ => none
+
+def pUnOp : String → Option UnOp
+  | "neg" => some .neg | "pos" => some .pos | "abs" => some .abs | _ => none
+
+def pSTy : String → Option STy
+  | "N" => some .number | "V" => some .vector | "O" => some .other | _ => none
+
+def pFn : String → Option Fn
+  | "max" => some .max | "min" => some .min | _ => none
+
+mutual
+  partial def pExpr : P Expr
+    | "C" :: ts => do let (v, ts) ← pVal ts; pure (.const v, ts)
+    | "L" :: i :: ty :: ts => do pure (.leaf (← i.toNat?) (← pSTy ty), ts)
+    | "B" :: op :: ts => do
+      let op ← pBinOp op
+      let (l, ts) ← pExpr ts; let (r, ts) ← pExpr ts
+      pure (.bin op l r, ts)
+    | "U" :: op :: ts => do let op ← pUnOp op; let (e, ts) ← pExpr ts; pure (.un op e, ts)
+    | "G" :: ts => do let (e, ts) ← pExpr ts; let (i, ts) ← pExpr ts; pure (.getitem e i, ts)
+    | "LEN" :: ts => do let (e, ts) ← pExpr ts; pure (.len e, ts)
+    | "A" :: name :: ts => do let (e, ts) ← pExpr ts; pure (.attr e name, ts)
+    | "T" :: ts => do let (k, ts) ← pNat ts; let (es, ts) ← pMany pExpr k ts; pure (.mkseq false es, ts)
+    | "LS" :: ts => do let (k, ts) ← pNat ts; let (es, ts) ← pMany pExpr k ts; pure (.mkseq true es, ts)
+    | "VEC" :: ts => do
+      let (x, ts) ← pExpr ts; let (y, ts) ← pExpr ts; let (z, ts) ← pExpr ts
+      pure (.mkvec x y z, ts)
+    | "F" :: f :: ts => do
+      let f ← pFn f
+      let (k, ts) ← pNat ts; let (as, ts) ← pMany pArg k ts
+      pure (.call f as, ts)
+    | _ => none
+  partial def pArg : P Arg
+    | "P" :: ts => do let (e, ts) ← pExpr ts; pure (.pos e, ts)
+    | "S" :: ts => do let (e, ts) ← pExpr ts; pure (.star e, ts)
+    | _ => none
+end
+
+partial def showVal : Val → String
+  | .num q => s!"n {showRat q}"
+  | .none => "none"
+  | .str s => s!"s {stringToHex s}"
+  | .seq false xs => s!"t {xs.length}" ++ String.join (xs.map fun x => " " ++ showVal x)
+  | .seq true xs => s!"l {xs.length}" ++ String.join (xs.map fun x => " " ++ showVal x)
+  | .vec x y z => s!"v {showRat x} {showRat y} {showRat z}"
+
+def showRes : Option Val → String
+  | some v => showVal v
+  | none => "err"
+
+def binName : BinOp → String
+  | .add => "add" | .sub => "sub" | .mul => "mul" | .truediv => "truediv"
+  | .floordiv => "floordiv" | .mod => "mod" | .pow => "pow"
+
+def dunderName (op : BinOp) (refl : Bool) : String := "__" ++ (if refl then "r" else "") ++ binName op ++ "__"
+
+def unName : UnOp → String
+  | .neg => "__neg__" | .pos => "__pos__" | .abs => "__abs__"
+
+def tyName : STy → String
+  | .number => "N" | .vector => "V" | .other => "O"
+
+def fnName : Fn → String
+  | .max => "max" | .min => "min"
+
+partial def shape : Node → String
+  | .const _ => "c"
+  | .leaf i _ => s!"L{i}"
+  | .opd2 op refl obj arg ty => s!"O:{tyName ty}({dunderName op refl},{shape obj},{shape arg})"
+  | .opd1 op obj ty => s!"O:{tyName ty}({unName op},{shape obj})"
+  | .geti obj idx => s!"O({"__getitem__"},{shape obj},{shape idx})"
+  | .lend obj => s!"O:N({"__len__"},{shape obj})"
+  | .attrd name obj ty => s!"A:{tyName ty}({name},{shape obj})"
+  | .vop op refl obj arg => s!"VO({dunderName op refl},{shape obj},{shape arg})"
+  | .vmeth op refl _ _ _ arg => s!"VM({dunderName op refl},{shape arg})"
+  | .vecOf x y z => s!"V({shape x},{shape y},{shape z})"
+  | .tupd k xs => (if k then "TDL(" else "TD(") ++ ",".intercalate (xs.map shape) ++ ")"
+  | .rawt k xs => (if k then "RTL(" else "RT(") ++ ",".intercalate (xs.map shape) ++ ")"
+  | .fnd f args => s!"F({fnName f}," ++ ",".intercalate (args.map shape) ++ ")"
+  | .star n => s!"*{shape n}"
+  | .fail => "FAIL"
+
+def mkEnv (vals : List Val) : Env := fun i => vals.getD i .none
+
+def showOptRat : Option Rat → String
+  | some q => showRat q
+  | none => "-"
+
+open Scenic.Support in
+partial def pSExpr : P SExpr
+  | "K" :: ts => do let (q, ts) ← pRat ts; pure (.const q, ts)
+  | "X" :: ts => some (.opaque, ts)
+  | "L" :: i :: ts => do pure (.leaf (← i.toNat?), ts)
+  | "B" :: op :: r :: ts => do
+    let op ← pBinOp op
+    let (l, ts) ← pSExpr ts; let (rr, ts) ← pSExpr ts
+    pure (.bin op (r == "r") l rr, ts)
+  | "U" :: op :: ts => do let op ← pUnOp op; let (e, ts) ← pSExpr ts; pure (.un op e, ts)
+  | "RANGE" :: ts => do let (l, ts) ← pSExpr ts; let (h, ts) ← pSExpr ts; pure (.range l h, ts)
+  | "DRANGE" :: ts => do let (l, ts) ← pSExpr ts; let (h, ts) ← pSExpr ts; pure (.drange l h, ts)
+  | "MUX" :: ts => do let (k, ts) ← pNat ts; let (es, ts) ← pMany pSExpr k ts; pure (.mux es, ts)
+  | "MONO" :: f :: ts => do
+    let f ← pFn f
+    let (k, ts) ← pNat ts; let (es, ts) ← pMany pSExpr k ts
+    pure (.mono f es, ts)
+  | "TN" :: ts => do let (l, ts) ← pRat ts; let (h, ts) ← pRat ts; pure (.truncnormal l h, ts)
+  | _ => none
+
+def pIval : P Scenic.Support.Supp
+  | a :: b :: ts =>
+    let f (s : String) : Option (Option Rat) := if s == "-" then some none else (parseRat s).map some
+    do pure ((← f a, ← f b), ts)
+  | _ => none
 
 def handle : List String → String
+  | "ev" :: n :: rest => (do
+      let n ← n.toNat?
+      let (vals, ts) ← pMany pVal n rest
+      let (e, ts) ← pExpr ts
+      if !ts.isEmpty then none
+      let env := mkEnv vals
+      let node := build T e
+      let sup := supportedB T env e
+      pure s!"{if sup then 1 else 0} | {showRes (evalPy env e)} | {showRes (evalNode T env node)} | {shape node}").getD "bad-op"
+  | "sup" :: n :: rest => (do
+      let n ← n.toNat?
+      let (ivs, ts) ← pMany pIval n rest
+      let (e, ts) ← pSExpr ts
+      if !ts.isEmpty then none
+      pure (match Scenic.Support.support Scenic.Gen.supportFormulas (fun i => ivs.getD i (none, none)) e with
+        | some (l, h) => s!"{showOptRat l} {showOptRat h}"
+        | none => "exc")).getD "bad-op"
+  | ["tables"] =>
+    let es := T.simp.map fun e => s!"{dunderName e.op e.refl}:{e.const}"
+    let vs := T.vecOps.map fun e => s!"{dunderName e.1 e.2.1}:{if e.2.2 then 1 else 0}"
+    s!"simp={",".intercalate es} vec={",".intercalate vs} guard={if T.guardMissingAttr then 1 else 0} monotone={",".intercalate (Scenic.Gen.monotoneDeclared)}"
   | _ => "bad-op"
 
 end Driver.C05
